@@ -140,7 +140,12 @@ C03_Failed(pre, post, s) ==
 
 C03_Cleanup(pre, post, s) ==
   (s.u.kind = "upgrade" /\ s.u.cleanup /\ ~s.u.dry /\ ClusterFault(s) /\ ~s.ok) =>
-    \A r \in s.posted : IsAbsent(post.cluster[r])
+    \* (with --atomic the rollback that follows the cleanup may create the resource once more, when the
+    \*  revision it restores has it: that object belongs to the restored revision, not to the failed upgrade)
+    LET top == MaxOr0(Revs(post.store))
+        restored == IF s.u.atomic /\ top # 0 /\ top \notin Revs(pre.store) /\ post.store[top].st = "deployed"
+                    THEN DOMAIN post.store[top].man ELSE {} IN
+    \A r \in s.posted : IsAbsent(post.cluster[r]) \/ r \in restored
 
 C03_AtomicUpgrade(pre, post, s) ==
   \* (a fault that hits the rollback itself is outside the statement: the cluster must accept the recovery)
